@@ -38,6 +38,8 @@
 #include <termios.h>
 #include <locale.h>
 #include <poll.h>
+#include <dirent.h>
+#include <sys/stat.h>
 
 extern "C" {
 #include "std.h"
@@ -74,6 +76,14 @@ FILE *__real_fopen(const char *, const char *);
 int __real_fclose(FILE *);
 int __real_rename(const char *, const char *);
 int __real_unlink(const char *);
+int __real_open(const char *, int, ...);
+int __real_stat(const char *, struct stat *);
+int __real_lstat(const char *, struct stat *);
+DIR *__real_opendir(const char *);
+int __real_mkdir(const char *, mode_t);
+int __real_rmdir(const char *);
+int __real_link(const char *, const char *);
+int __real_symlink(const char *, const char *);
 int __real_isatty(int);
 int __real_tcgetattr(int, struct termios *);
 int __real_tcsetattr(int, int, const struct termios *);
@@ -436,6 +446,19 @@ int __wrap_fclose(FILE *f) {
 }
 int __wrap_rename(const char *a, const char *b) { if (g_fslog || g_fscrash) fs_event("rename", a, b); return __real_rename(a, b); }
 int __wrap_unlink(const char *a) { if (g_fslog || g_fscrash) fs_event("unlink", a); return __real_unlink(a); }
+int __wrap_open(const char *path, int flags, ...) {
+  mode_t mode = 0;
+  if (flags & O_CREAT) { va_list ap; va_start(ap, flags); mode = (mode_t)va_arg(ap, int); va_end(ap); }
+  if (g_fslog || g_fscrash) fs_event((flags & (O_WRONLY | O_RDWR | O_CREAT | O_TRUNC)) ? "open_w" : "open", path ? path : "");
+  return __real_open(path, flags, mode);
+}
+int __wrap_stat(const char *path, struct stat *st) { if (g_fslog) fs_event("stat", path ? path : ""); return __real_stat(path, st); }
+int __wrap_lstat(const char *path, struct stat *st) { if (g_fslog) fs_event("lstat", path ? path : ""); return __real_lstat(path, st); }
+DIR *__wrap_opendir(const char *path) { if (g_fslog) fs_event("opendir", path ? path : ""); return __real_opendir(path); }
+int __wrap_mkdir(const char *path, mode_t m) { if (g_fslog) fs_event("mkdir", path ? path : ""); return __real_mkdir(path, m); }
+int __wrap_rmdir(const char *path) { if (g_fslog) fs_event("rmdir", path ? path : ""); return __real_rmdir(path); }
+int __wrap_link(const char *a, const char *b) { if (g_fslog) fs_event("link", a ? a : "", b ? b : ""); return __real_link(a, b); }
+int __wrap_symlink(const char *a, const char *b) { if (g_fslog) fs_event("symlink", a ? a : "", b ? b : ""); return __real_symlink(a, b); }
 int __wrap_fprintf(FILE *f, const char *fmt, ...) {
   if ((g_fslog || g_fscrash) && g_fpath.count(f)) fs_event("fprintf", g_fpath[f]);
   va_list ap; va_start(ap, fmt); int r = vfprintf(f, fmt, ap); va_end(ap); return r;
